@@ -347,6 +347,8 @@ def pow_(a, n):
 # comparisons and logic
 
 def _cmp(a, b, op):
+    if isinstance(a, str) and isinstance(b, str):
+        return {'<': a < b, '<=': a <= b, '>': a > b, '>=': a >= b, '==': a == b, '!=': a != b}[op]
     a, b = num(a), num(b)
     if isinstance(a, Inf) or isinstance(b, Inf):
         raise Unsupported('comparison with inf')
